@@ -98,6 +98,43 @@ theorem ambiguous_two_readings (u : Uni) (ha : u.Ascii) (cfg : TimeCfg) (c : Clo
   simp [h1, h12]
   omega
 
+
+/-- C07(d) `<date> at <time>`: a resolved absolute date (groups decode to the existing date `y-mo-d`, four-digit year)
+followed by a decoded clock time yields the datetime composed of both: TIMEX = date TIMEX ++ time TIMEX
+(`YYYY-MM-DDThh[:mm[:ss]]`), value `YYYY-MM-DD hh:mm:ss`, type `datetime`; one value when the hour is unambiguous
+(0, 13–23, or am / pm given), the two readings twelve hours apart otherwise. No "morning / afternoon" word in the
+text (`pm_time_regex` / `am_time_regex` do not match). Repaired variant or hour ≠ 0. -/
+theorem date_at_time (u : Uni) (ha : u.Ascii) (dcfg : DateCfg) (hmax : dcfg.maxTwoDigitYearFuture ≤ 100)
+    (dg : DateGroups) (y mo d : Nat) (hdec : Decodes u dcfg dg y mo d) (hy : 1000 ≤ y ∧ y ≤ 9999)
+    (hvd : (⟨y, mo, d⟩ : Date).valid = true) (wy : Int) (tcfg : TimeCfg) (c : Clock) (wf : c.WF u) (amD pmD : Bool)
+    (hz : tcfg.zeroHourIsNone = false ∨ 0 < c.h) (ref : DT) (hv : ref.date.valid = true) :
+    resolveDateAtTime u dcfg dg wy tcfg (c.groups amD pmD) false false ref =
+      .ok (some (if 0 < adjHour c.h amD pmD ∧ adjHour c.h amD pmD ≤ 12 ∧ amD = false ∧ pmD = false
+                 then [c.dtValue y mo d (adjHour c.h amD pmD), c.dtValue y mo d (pmHour (adjHour c.h amD pmD))]
+                 else [c.dtValue y mo d (adjHour c.h amD pmD)])) :=
+  resolveDateAtTime_clock u ha dcfg hmax dg y mo d hdec hy hvd wy tcfg c wf amD pmD hz ref hv
+
+/-- `date_at_time` for a 24-hour time whose hour is 0 or 13–23: exactly the one datetime. -/
+theorem date_at_time_unambiguous (u : Uni) (ha : u.Ascii) (dcfg : DateCfg) (hmax : dcfg.maxTwoDigitYearFuture ≤ 100)
+    (dg : DateGroups) (y mo d : Nat) (hdec : Decodes u dcfg dg y mo d) (hy : 1000 ≤ y ∧ y ≤ 9999)
+    (hvd : (⟨y, mo, d⟩ : Date).valid = true) (wy : Int) (tcfg : TimeCfg) (hfix : tcfg.zeroHourIsNone = false) (c : Clock)
+    (wf : c.WF u) (hh : c.h = 0 ∨ 13 ≤ c.h) (ref : DT) (hv : ref.date.valid = true) :
+    resolveDateAtTime u dcfg dg wy tcfg (c.groups false false) false false ref = .ok (some [c.dtValue y mo d c.h]) := by
+  rw [date_at_time u ha dcfg hmax dg y mo d hdec hy hvd wy tcfg c wf false false (Or.inl hfix) ref hv]
+  have : ¬ (0 < c.h ∧ c.h ≤ 12) := by omega
+  simp [adjHour, this]
+
+/-- `date_at_time` for an hour 1–12 without am/pm: both readings, twelve hours apart, on the same date. -/
+theorem date_at_time_ambiguous (u : Uni) (ha : u.Ascii) (dcfg : DateCfg) (hmax : dcfg.maxTwoDigitYearFuture ≤ 100)
+    (dg : DateGroups) (y mo d : Nat) (hdec : Decodes u dcfg dg y mo d) (hy : 1000 ≤ y ∧ y ≤ 9999)
+    (hvd : (⟨y, mo, d⟩ : Date).valid = true) (wy : Int) (tcfg : TimeCfg) (c : Clock) (wf : c.WF u)
+    (h1 : 1 ≤ c.h) (h12 : c.h ≤ 12) (ref : DT) (hv : ref.date.valid = true) :
+    resolveDateAtTime u dcfg dg wy tcfg (c.groups false false) false false ref =
+      .ok (some [c.dtValue y mo d c.h, c.dtValue y mo d ((c.h + 12) % 24)]) := by
+  rw [date_at_time u ha dcfg hmax dg y mo d hdec hy hvd wy tcfg c wf false false (Or.inr (by omega)) ref hv]
+  have : (0 < c.h ∧ c.h ≤ 12) := by omega
+  simp [adjHour, this, (toPm_twelve_apart c.h h1 h12).1]
+
 /-- shape of the TIMEX: `T`, two digits, then `:mm` / `:ss` exactly for the parts that were written -/
 theorem short_time_shape (c : Clock) (hh : Nat) (h : hh < 100) :
     c.timex hh = [84, 48 + hh / 10, 48 + hh % 10] ++ c.tail := by
